@@ -352,3 +352,18 @@ func init() {
 		mutant{Name: "not-enough-results-only-for-unnamed-results", Prop: "C12", File: "interp/cfg.go", Old: "\t\t\tif (mustReturnValue(returnSig) || len(n.child) > 0) && nret < sc.def.typ.numOut() {\n", New: "\t\t\tif mustReturnValue(returnSig) && nret < sc.def.typ.numOut() {\n", Rule: "R12.21", Key: "cfg/case:returnStmt/arity:not-enough"},
 	)
 }
+
+func init() {
+	addMutants(
+		// D107 reverted
+		mutant{Name: "multiple-definition-from-a-call-not-global", Prop: "C11", File: "interp/cfg.go", Old: "\t\t\tsc.sym[id] = &symbol{index: index, kind: varSym, typ: t, global: sc.global}\n", New: "\t\t\tsc.sym[id] = &symbol{index: index, kind: varSym, typ: t}\n", Rule: "R11.14", Key: "compDefineX/variable-symbol#1/carries-the-global-flag"},
+	)
+}
+
+func init() {
+	addMutants(
+		// D108 reverted
+		mutant{Name: "declared-names-of-type-expressions-taken-for-variables", Prop: "C15", File: "interp/cfg.go", Old: "\t\t\tif n.anc.kind == fieldExpr && n != n.anc.lastChild() {\n\t\t\t\t// The name of a field, a method or a parameter in a type expression.\n\t\t\t\treturn false\n\t\t\t}\n", New: "", Rule: "R15.15", Key: "getVarDependencies/declared-names-of-type-expressions-ignored"},
+		mutant{Name: "every-child-of-a-field-expression-ignored", Prop: "C15", File: "interp/cfg.go", Old: "\t\t\tif n.anc.kind == fieldExpr && n != n.anc.lastChild() {\n", New: "\t\t\tif n.anc.kind == fieldExpr {\n", Rule: "R15.5", Key: "getVarDependencies/skip:fieldExpr"},
+	)
+}
